@@ -138,4 +138,35 @@ def run_case(case):
                 res["counters"]["robust_" + rr.replace(" ", "_")] = 1
         except Exception as e:
             res["counters"]["robust_error"] = 1
+        # (d) ... and for the two-stage stochastic problem made from the portfolio (documented workflow: make_slp -> optimize ->
+        #     extract_output): the value of the SLP is the sum of the DCF table (future cash flows are means over the scenarios)
+        try:
+            from copy import deepcopy
+            pf, tg, prices = impl.build(scn)
+            op = pf.setup_optim_problem(prices, tg)
+            samples = []
+            for f in (lambda v: v[::-1].copy(), lambda v: 1.5 * v + 1.0):
+                samples.append({k: (f(v) if k in ("p", "q", "ec") else v) for k, v in prices.items()})
+            slp = eao.stoch_lin_prog.make_slp(deepcopy(op), pf, tg, tg.timepoints[max(1, tg.T // 2)], samples)
+            rs = slp.optimize(solver="SCIPY")
+        except Exception as e:
+            rs = None
+            res["counters"]["slp_error"] = 1
+        if rs is not None and not isinstance(rs, str):
+            try:
+                outs = eao.io.extract_output(pf, slp, rs, prices)
+                tots = float(np.nansum(outs["DCF"].values))
+                svals = float(outs["summary"].loc["value", "Values"])
+                res["counters"]["slp_checked"] = 1
+                if not close(float(rs.value), tots, rel=1e-6, abs_=1e-6) or not close(svals, tots, rel=1e-6, abs_=1e-6):
+                    V.append(viol("c04.slp_total", "two-stage stochastic problem: Results.value %.8f, summary value %.8f, sum of the DCF table %.8f"
+                                  % (rs.value, svals, tots), tags + ["slp"], ["slp", "total"]))
+                xs = np.asarray(rs.x, float)
+                if not close(float(rs.value), float(-(np.asarray(slp.c, float) * xs).sum()), rel=1e-6, abs_=1e-6):
+                    V.append(viol("c04.slp_value_cx", "two-stage stochastic problem: Results.value %.8f vs -c.x %.8f" % (rs.value, float(-(np.asarray(slp.c, float) * xs).sum())),
+                                  tags + ["slp"], ["slp", "cx"]))
+            except Exception as e:
+                from .common import exc_site
+                V.append(viol("c04.slp_output", "two-stage stochastic problem solved (value %.6f), but the DCF table cannot be extracted: %s at %s"
+                              % (rs.value, short_exc(e), exc_site()), tags + ["slp"], ["slp", "raises"]))
     return res
